@@ -2,8 +2,8 @@
 (* D-check for C02 on every universe of Gen_C02 (no code involved): the implementation-    *)
 (* shaped resolver model LoaderImpl agrees with the contract Layout!Designated at every    *)
 (* reference site the loader has to resolve, except exactly in the three listed classes    *)
-(* (positions never visited; the same raw ref string in two files while one is in          *)
-(* progress; cycles made only of references).                                               *)
+(* (the same raw ref string in two files while one is in progress; cycles made only of     *)
+(* references; and, for the pinned resolver before the repairs, positions never visited).  *)
 EXTENDS Gen_C02, LoaderImpl
 
 U0 == case.u
@@ -35,8 +35,8 @@ AllRefSites == {[file |-> Root, ref |-> U0.use.ref]}
                            ELSE {[file |-> U0.slots[i].file, ref |-> U0.slots[i].c.ref]} : i \in DOMAIN U0.slots}
 
 NeverVisited(key) ==
-   \/ KindOfKey(key) = "links" /\ key[1] \in {"root"}
-   \/ (key[1] = "use" /\ Pos = "comp" /\ U0.use.kind = "links")
+   \/ ~LoaderVisitsAll /\ KindOfKey(key) = "links" /\ key[1] \in {"root"}
+   \/ (~LoaderVisitsAll /\ key[1] = "use" /\ Pos = "comp" /\ U0.use.kind = "links")
    \/ (key[1] = "child" /\ UnvisitedSite(U0.slots[key[2]].kind, U0.slots[key[2]].c.ch[key[3]].site))
 SameTextTwoFiles(key) ==
    \E a, b \in AllRefSites : a.file # b.file /\ RefText(a.ref) = RefText(RefOf(key)) /\ RefText(b.ref) = RefText(RefOf(key))
@@ -64,5 +64,7 @@ StrictOnClean == Clean => \A key \in SiteKeys :
 (* concrete object other than the designated one                                                 *)
 ReproducesConflation == case.shape = "conflation" =>
                            \E key \in SiteKeys : L2Of(key) \notin {L1Of(key), "nil", "error"}
+(* pinned resolver (LoaderVisitsAll = FALSE) only: this must be violated -- the old walk did skip positions *)
+VisitsEverything == \A key \in SiteKeys : ~NeverVisited(key)
 ReproducesPureCycle == case.shape = "refcycle" => (~LoadFails(U0, Pos) /\ L2Of(<<"use">>) = "nil")
 =============================================================================
